@@ -130,6 +130,42 @@ CHECKS["C12"] = {
                     "fmt %d rendered exactly: digit-count forks, digit variables tied to the value by value = sum d_i*10^i",
                     "hex.EncodeToString modelled as the injective per-nibble rendering"],
 }
+_PROC_OPTS = {"summary": "vaaid", "z3": "z3-new"}
+_c01_static_q = (["n=1;m.plen=1", "n=2;m.plen=1;own=0", "n=2;m.plen=1;own=1"] + ["n=2;m.plen=1;own=2;advAt=%d" % a for a in (0, 1, 2)] +
+                 ["n=3;m.plen=1;own=%d;advAt=%d;early=%s" % (o, a, e) for o in (0, 1) for a in (0, 2) for e in ("9", "0,1")] +
+                 ["n=3;m.plen=1;own=3;advAt=%d;early=%s;deliver#0=%d" % (a, e, d) for a in (0, 2) for e in ("9", "0") for d in (0, 1)])
+_c01_static_t = (["n=1", "n=2;own=0", "n=2;own=1", "n=2;own=2"] +
+                 ["n=3;m.plen=1;own=%d;advAt=%d;early=%s" % (o, a, e) for o in (0, 1, 2, 3) for a in (0, 1, 2) for e in ("9", "0", "1", "2")] +
+                 ["n=4;m.plen=1;own=%d;advAt=%d;early=%s;deliver#0=%d;deliver#1=%d" % (o, a, e, d0, d1) for o in (0, 2, 4) for a in (0, 2) for e in ("9", "1") for d0 in (0, 1) for d1 in (0, 1)])
+_c01_sc_q = ["nA=%d;nB=%d;shift=%d;m.plen=1;early=9,1" % (a, b, sh) for a in (1, 2) for b in (1, 2) for sh in (0, 1, 2)]
+_c01_sc_t = ["nA=%d;nB=%d;shift=%d;m.plen=1;change=%d" % (a, b, sh, c) for a in (1, 2, 3) for b in (1, 2, 3) for sh in (0, 1, 2) for c in (1, 2)]
+_c01_in_q = (["n=0,1;m.plen=1", "n=2;m.plen=1;nsig=0..2", "n=2;m.plen=1;nsig=3;haveSet=1;prestored=0", "n=3;m.plen=1;nsig=0..2"] +
+             ["n=3;m.plen=1;nsig=3;haveSet=1;prestored=0;sel#0=%s" % x for x in ("0", "1", "2", "6", "7", "8")] +
+             ["n=4;m.plen=1;nsig=2;haveSet=1;prestored=0", "n=6;m.plen=1;nsig=4;haveSet=1;prestored=0;sel#0=0;sel#1=1;sel#2=2;sel#3=3", "n=6;m.plen=1;nsig=5;haveSet=1;prestored=0;sel#0=0;sel#1=1;sel#2=2;sel#3=3;sel#4=4"])
+_c01_in_t = (["n=0,1", "n=2;nsig=0..2", "n=2;nsig=3", "n=3;nsig=0..2"] +
+             ["n=3;m.plen=1;nsig=3;sel#0=%s" % x for x in ("0", "1", "2", "6", "7", "8")] +
+             ["n=4;m.plen=1;nsig=0..2"] + ["n=4;m.plen=1;nsig=3;haveSet=1;prestored=0;sel#0=%s;sel#1=%s" % (x, y) for x in ("0", "1", "2", "3", "6", "7", "8") for y in ("0,1", "2,3", "6,7,8")] +
+             ["n=6;m.plen=1;nsig=4;haveSet=1;prestored=0;sel#0=0;sel#1=1;sel#2=2", "n=6;m.plen=1;nsig=5;haveSet=1;prestored=0;sel#0=0;sel#1=1;sel#2=2;sel#3=3"])
+CHECKS["C01"] = {
+    "runs": [
+        {"pkg": "./pkg/processor", "entry": "VerifC01_Static", "reach": ["published", "not-published", "stored", "broadcast"], "opts": _PROC_OPTS,
+         "shards": {"quick": _c01_static_q, "thorough": _c01_static_t}, "timeout": {"quick": 2400, "thorough": 30000}},
+        {"pkg": "./pkg/processor", "entry": "VerifC01_SetChange", "reach": ["published", "not-published"], "opts": _PROC_OPTS,
+         "shards": {"quick": _c01_sc_q, "thorough": _c01_sc_t}, "timeout": {"quick": 2400, "thorough": 30000}},
+        {"pkg": "./pkg/processor", "entry": "VerifC01_Inbound", "reach": ["accepted", "rejected", "prestored"], "opts": _PROC_OPTS,
+         "shards": {"quick": _c01_in_q, "thorough": _c01_in_t}, "timeout": {"quick": 2400, "thorough": 30000}},
+    ],
+    "bounds": {"quick": {"observation path, one set": "set size n = 1..3 (own key at position 0, 1 or not a member); message fully symbolic (payload 1 byte); optional early peer observation; every subset of the other members' honest observations; own loopback first or last; one fully symbolic adversarial observation (20+32+65 arbitrary bytes) before the local observation or last",
+                         "set change": "|A|,|B| in 1..2, B = keys shift..shift+|B|-1 with shift 0..2, change before or after the own observation, optional early observation, every subset of later honest observations",
+                         "inbound": "current set n = 0..3 (and 4 with 2 signatures, 6 with 4 and 5 honest signatures), no set yet / set known, 0..3 signatures each {member j over the digest, member 0 over another digest, 65 arbitrary bytes, unrecoverable bytes} with symbolic index byte, with and without a VAA already stored under the id",
+                         "unwind": 3000},
+               "thorough": {"observation path": "n = 1..4, own at every position, adversarial observation at three places, payload 0..2 bytes for n <= 2", "set change": "|A|,|B| in 1..3", "inbound": "n <= 4 with <= 3 signatures"}},
+    "outside": "guardian sets larger than 4 (6 on the inbound path with honest signatures only) - the size-dependent arithmetic is covered for all n <= 255 by C07 and the index/ordering logic for n up to 255 by C06; more than one adversarial observation per history; more than one message per history; libp2p transport and the reporter; badger (key-value model); timing",
+    "assumptions": ["ecrecover/keccak model (DESIGN 4.1): unforgeability - a signature not produced by SignBy never recovers to an honest key",
+                    "(*VAAID).Bytes summarised as an injective encoding of its four fields (licensed by C12's key-injectivity lemma)",
+                    "proto.Marshal/Unmarshal: opaque handle carrying the message (DESIGN 4.2); badger as a key-value map; zap/prometheus/reporter no-ops",
+                    "the processor is one goroutine: a history is a sequence of handler calls; the own-observation loopback goroutine is delivered at a harness-chosen point"],
+}
 
 # generated harness parts per (module, package): regenerated from /repo on every run for every check that loads the package
 GENERATORS = {("node", "./pkg/vaa"): [_gen_c04], ("node", "./pkg/processor"): [_gen_c07]}
